@@ -59,6 +59,9 @@ def scenario(sseed, kind, allfail=False, empty=False):
                 if not o_.ongoing_trials:
                     raise Violation("C11", f"{kind}: IDLE answered to {w} while no trial is running", {"kind": kind, "tag": "idle"})
             elif t.status == "STOPPED":
+                if o_._retry_queue:
+                    raise Violation("C11", f"{kind}: {w} is told STOPPED while trial(s) {list(o_._retry_queue)} wait to be run again: the search ends "
+                                           "with work it was asked to do left over", {"kind": kind, "tag": "stopped-with-retry-pending"})
                 budget_used = bool(o_.max_trials) and len(o_.trials) >= o_.max_trials
                 if budget_used:
                     return
@@ -89,6 +92,11 @@ def scenario(sseed, kind, allfail=False, empty=False):
         aborted = fin[2] if fin else True
         if fin and not fin[1]:
             raise Violation("C11", f"{kind}: fair schedule did not reach STOPPED for all workers within 4000 further requests", {"kind": kind, "tag": "livelock"})
+        if fin and fin[1] and not aborted:
+            left = [tid for tid, t_ in o.trials.items() if t_.status not in ("COMPLETED", "FAILED")]
+            if left:
+                raise Violation("C11", f"{kind}: every worker was told STOPPED but trial(s) {left[:3]} never finished "
+                                       f"({[o.trials[x].status for x in left[:3]]})", {"kind": kind, "tag": "unfinished-at-stop"})
         if fin and not aborted:
             if o.max_trials:
                 bound = o.max_trials * R1
